@@ -5,6 +5,18 @@ mod driver;
 mod engine_comb;
 mod exec;
 mod gen;
+#[cfg(feature = "has-alloc")]
+mod groups;
+#[cfg(not(feature = "has-alloc"))]
+mod groups {
+    //! no groups without an allocator: only the interface the executor names
+    use crate::val::Val;
+    use std::task::{Context, Poll};
+    pub trait GroupDyn {
+        fn poll_next(&mut self, cx: &mut Context<'_>) -> Poll<Option<Val>>;
+        fn after_poll(&mut self);
+    }
+}
 mod nodes;
 mod oracle;
 mod props;
@@ -23,6 +35,11 @@ fn arg(args: &[String], name: &str) -> Option<String> {
 fn engine_for(prop: &str, tier: Tier) -> Option<(Arc<dyn Engine>, &'static str, u64, usize, &'static str)> {
     if let Some(p) = props::comb_prop(prop) {
         let e = engine_comb::CombEngine::new(p, tier);
+        return Some((Arc::new(e), p.rule, (p.cases)(tier), (p.max_len)(tier), p.id));
+    }
+    #[cfg(feature = "has-alloc")]
+    if let Some(p) = props::group_prop(prop) {
+        let e = groups::GroupEngine { gp: (p.profile)(tier), fold_shared: true };
         return Some((Arc::new(e), p.rule, (p.cases)(tier), (p.max_len)(tier), p.id));
     }
     None
